@@ -67,6 +67,9 @@ AllocViol(e) ==
       ELSE {"C04_ExactAmount"})
    ELSE
      (IF e.coupled \/ ~AllFeasible(e) THEN {} ELSE {"C16_NoSpuriousRefusal"}) \cup
+     \* "when a task ends everything it held becomes available again": on a sum resource there is no policy in the way, so a
+     \* request made only of sum-resource entries that fit what is free (by the pool's own books) has to be granted
+     (IF (\A en \in Entries(e) : Pool(e.pre, en.r).kind = "sum") /\ AllFeasible(e) THEN {"C04_ReturnedIsAvailable"} ELSE {}) \cup
      (IF e.post = e.pre THEN {} ELSE {"C04_RefusalChangesNothing"}))
 
 LineViol(e) ==
